@@ -276,6 +276,17 @@ func (c *assocClient) Visit(e *Engine, st *State, n ast.Node) *State {
 		if f := st.Get("(" + mk + " <= " + p1 + ")"); f != nil && f.HasEq && f.Eq == "true" {
 			okMin = true
 		}
+		// the minimum is a known number on this path (a negative minimum normalised to 0): the bound on the
+		// precedence says the same
+		if fm, fp := st.Get(mk), st.Get(p1); fm != nil && fp != nil && fp.Lo != nil {
+			if fm.HasEq {
+				if m, isInt := parseInt(fm.Eq); isInt && *fp.Lo >= m {
+					okMin = true
+				}
+			} else if fm.Hi != nil && *fp.Lo >= *fm.Hi {
+				okMin = true
+			}
+		}
 		ok := okNonNeg && okMin
 		e.Site("C07/assoc", key+": operator admitted", cl, ok, "built only for a token with precedence >= 0 and >= the minimum of this level")
 		if !ok {
@@ -698,6 +709,69 @@ func ruleC07Keeps(p *Program, r *Run) {
 			}
 			kept := false
 			scope := ast.Node(fd.Body)
+			// handed to a helper (a constructor of the node, a generic "append if not nil") that keeps it
+			var keptByCallee func(u *ast.CallExpr, v types.Object, depth int) bool
+			keptByCallee = func(u *ast.CallExpr, v types.Object, depth int) bool {
+				f := Callee(info, u)
+				if f == nil || depth > 2 {
+					return false
+				}
+				if f.Origin() != nil {
+					f = f.Origin()
+				}
+				decl, dpkg := p.DeclOf(f)
+				if decl == nil || decl.Body == nil || dpkg != pkg {
+					return false
+				}
+				idx := 0
+				for _, fl := range decl.Type.Params.List {
+					for _, nm := range fl.Names {
+						if idx < len(u.Args) && objOf(info, u.Args[idx]) == v {
+							po := info.Defs[nm]
+							found := false
+							ast.Inspect(decl.Body, func(z ast.Node) bool {
+								switch w := z.(type) {
+								case *ast.KeyValueExpr:
+									if objOf(info, w.Value) == po {
+										found = true
+									}
+								case *ast.CallExpr:
+									if IsBuiltinCall(info, w, "append") {
+										for _, a := range w.Args[1:] {
+											if objOf(info, a) == po {
+												found = true
+											}
+										}
+									} else if keptByCallee(w, po, depth+1) {
+										found = true
+									}
+								case *ast.AssignStmt:
+									for i, l := range w.Lhs {
+										if i < len(w.Rhs) && objOf(info, w.Rhs[i]) == po {
+											switch ast.Unparen(l).(type) {
+											case *ast.SelectorExpr, *ast.IndexExpr:
+												found = true
+											}
+										}
+									}
+								case *ast.ReturnStmt:
+									for _, res := range w.Results {
+										if objOf(info, res) == po {
+											found = true
+										}
+									}
+								}
+								return !found
+							})
+							if found {
+								return true
+							}
+						}
+						idx++
+					}
+				}
+				return false
+			}
 			ast.Inspect(scope, func(y ast.Node) bool {
 				switch u := y.(type) {
 				case *ast.KeyValueExpr:
@@ -725,6 +799,8 @@ func ruleC07Keeps(p *Program, r *Run) {
 								kept = true // handed on to another production (exprBinaryTrail(x, ...))
 							}
 						}
+					} else if keptByCallee(u, v, 0) {
+						kept = true
 					}
 				case *ast.AssignStmt:
 					for i, l := range u.Lhs {
@@ -953,6 +1029,10 @@ func (c *synClient) Inline(e *Engine, call *ast.CallExpr, callee *types.Func, de
 		if tp, ok := t.(*types.TypeParam); ok && types.Implements(tp, c.p.Iface(c.p.Parser, "TabularOperator")) {
 			return true
 		}
+		// ... or hands back the pipeline it was given, possibly extended
+		if TypeStr(t) == "[]parser.TabularOperator" {
+			return true
+		}
 	}
 	return false
 }
@@ -976,6 +1056,19 @@ func (c *synClient) PostCall(e *Engine, st *State, call *ast.CallExpr, callee *t
 	return nil
 }
 
+// PreCall: an append to a list of tabular operators inside a helper interpreted in place
+// (appendOperator(expr.Operators, op)) extends the pipeline like an append written in tabularExpr itself.
+func (c *synClient) PreCall(e *Engine, st *State, call *ast.CallExpr, callee *types.Func) *State {
+	if callee != nil || !e.Reporting() || len(e.Frames()) == 0 || !IsBuiltinCall(e.Info, call, "append") || len(call.Args) != 2 {
+		return nil
+	}
+	if TypeStr(e.Info.TypeOf(call.Args[0])) != "[]parser.TabularOperator" {
+		return nil
+	}
+	c.record(e, st, call)
+	return nil
+}
+
 func (c *synClient) PreAssign(e *Engine, st *State, lhs, rhs []ast.Expr, _ ast.Stmt) *State {
 	if len(lhs) != 1 || len(rhs) != 1 || !e.Reporting() {
 		return nil
@@ -987,6 +1080,12 @@ func (c *synClient) PreAssign(e *Engine, st *State, lhs, rhs []ast.Expr, _ ast.S
 	if !ok || !IsBuiltinCall(e.Info, call, "append") || len(call.Args) != 2 {
 		return nil
 	}
+	c.record(e, st, call)
+	return nil
+}
+
+// record: the pipeline is extended by the second argument of this append.
+func (c *synClient) record(e *Engine, st *State, call *ast.CallExpr) {
 	prod := "?" + exprStr(call.Args[1])
 	f := e.FactOf(st, call.Args[1])
 	if f == nil {
@@ -1019,7 +1118,6 @@ func (c *synClient) PreAssign(e *Engine, st *State, lhs, rhs []ast.Expr, _ ast.S
 		c.got[kw] = map[string]bool{}
 	}
 	c.got[kw][prod] = true
-	return nil
 }
 
 // stmtLoopClient: the statement loop of Parse is only left when next() reported the end of the tokens.
@@ -1096,6 +1194,26 @@ type sortTermClient struct {
 }
 
 var sortKeywords = []string{"asc", "desc", "nulls", "first", "last"}
+
+// Inline: besides predicates, helpers that are handed the term to fill in (sortDirection(term), sortNulls(term))
+// are read where they are called.
+func (c *sortTermClient) Inline(e *Engine, call *ast.CallExpr, callee *types.Func, decl *ast.FuncDecl) bool {
+	if c.InlinePredicates.Inline(e, call, callee, decl) {
+		return true
+	}
+	if callee == nil || !smallBody(decl) {
+		return false
+	}
+	sig := callee.Type().(*types.Signature)
+	for i := 0; i < sig.Params().Len(); i++ {
+		if pt, ok := sig.Params().At(i).Type().(*types.Pointer); ok {
+			if n, isN := pt.Elem().(*types.Named); isN && objName(n.Obj()) == "SortTerm" {
+				return true
+			}
+		}
+	}
+	return false
+}
 
 // Stmt: remember which keywords the tokens read so far are known to be.
 func (c *sortTermClient) Stmt(e *Engine, st *State, _ ast.Stmt) *State {
